@@ -33,7 +33,7 @@ type reuseSession struct {
 	carrier  string // iq message
 	packets  []int  // sizes of the peer's data packets
 	writes   []int  // sizes of the library's writes (each flushed)
-	closer   string // peer lib
+	closer   string // peer lib lib-refused (the peer answers the library's <close/> with an error)
 	staleOps []int  // before the peer's data: indexes (mod #finished) of finished connections to Close() again
 }
 
@@ -55,7 +55,7 @@ func genReuse(t *rapid.T) reuseCase {
 			sid:     rapid.SampledFrom([]string{"x", "x", "y"}).Draw(t, "sid"),
 			opener:  rapid.SampledFrom([]string{"peer", "lib"}).Draw(t, "opener"),
 			carrier: rapid.SampledFrom([]string{"iq", "message"}).Draw(t, "carrier"),
-			closer:  rapid.SampledFrom([]string{"peer", "lib"}).Draw(t, "closer"),
+			closer:  rapid.SampledFrom([]string{"peer", "lib", "lib", "lib-refused"}).Draw(t, "closer"),
 			taker:   rapid.SampledFrom([]string{"accept", "expect"}).Draw(t, "taker"),
 		}
 		if s.opener != "peer" {
@@ -269,12 +269,28 @@ func checkReuse(t interface {
 				fail("session %d: the peer's <close/> of the live session %q was refused", si, s.sid)
 			}
 		} else {
+			if s.closer == "lib-refused" {
+				p.setPolicy("", "", "error:item-not-found")
+			}
 			out, ok := call(fmt.Sprintf("session %d: Close()", si), func() string { return fmt.Sprint("err=", conn.Close()) })
+			p.setPolicy("", "", "result")
 			if !ok {
 				return
 			}
-			if out != "err=<nil>" {
+			if s.closer == "lib" && out != "err=<nil>" {
 				fail("session %d: Close of the live session %q failed: %s", si, s.sid, out)
+			}
+			if s.closer == "lib-refused" {
+				// whatever Close reports, this end has closed the session: what the
+				// peer sends for it afterwards is for a closed session
+				rid := id("late")
+				kind, ok := request(fmt.Sprintf("session %d: peer data for the session the library has closed (the peer had refused the <close/>)", si), dataIQ(rid, s.sid, len(s.packets), b64([]byte("late"))), rid)
+				if !ok {
+					return
+				}
+				if kind != "error" {
+					fail("session %d: the library closed session %q (Close returned %s; the peer answered the <close/> with an error); a data packet for it afterwards was accepted", si, s.sid, out)
+				}
 			}
 		}
 		// ---- what the library's reader gets: everything, then end-of-file (a
@@ -291,7 +307,7 @@ func checkReuse(t interface {
 		if s.closer == "peer" && (!bytes.Equal(got, want) || !strings.HasSuffix(out, "err=<nil>")) {
 			fail("session %d (sid %q): the peer sent %x and closed; the reader got %x (%s)", si, s.sid, want, got, out)
 		}
-		if s.closer == "lib" && !bytes.HasPrefix(want, got) {
+		if s.closer != "peer" && !bytes.HasPrefix(want, got) {
 			fail("session %d (sid %q): the peer sent %x; the reader got %x, which is not a prefix of it", si, s.sid, want, got)
 		}
 		_ = wrote
@@ -306,7 +322,7 @@ func checkReuse(t interface {
 func TestC15Reuse(t *testing.T) {
 	ev.Check(t, 150, 2000, func(rt *rapid.T) {
 		c := genReuse(rt)
-		reused, stale, expected := false, false, false
+		reused, stale, expected, refused := false, false, false, false
 		seen := map[string]bool{}
 		for _, s := range c.sessions {
 			if seen[s.sid] {
@@ -319,6 +335,9 @@ func TestC15Reuse(t *testing.T) {
 			if s.taker == "expect" {
 				expected = true
 			}
+			if s.closer == "lib-refused" {
+				refused = true
+			}
 		}
 		classes := []string{"reuse"}
 		if reused {
@@ -330,7 +349,10 @@ func TestC15Reuse(t *testing.T) {
 		if expected {
 			classes = append(classes, "session-taken-with-Expect")
 		}
-		ev.Case(reused || stale || expected, c.String(), classes...)
+		if refused {
+			classes = append(classes, "close-answered-with-an-error")
+		}
+		ev.Case(reused || stale || expected || refused, c.String(), classes...)
 		checkReuse(rt, c)
 	})
 }
